@@ -54,3 +54,47 @@ package mpt
 //@ func makeStorageKey
 //@ ensures[len] len(result) == 33 && fresh(result)
 //@ ensures[val] result[0] == storage.DataMPT && forall(i, 0, 32, result[1+i] == mptKey[i])
+
+//@ prop C11
+//@ import storage github.com/nspcc-dev/neo-go/pkg/core/storage
+
+//@ spec le32s(b []byte, p int) int = b[p] + b[p+1]*256 + b[p+2]*65536 + b[p+3]*16777216
+
+//@ func (TrieMode).RC
+//@ inline
+//@ func (TrieMode).GC
+//@ inline
+
+// Database invariant relied upon (assumed): every value stored under an MPT key in the
+// reference-counting modes carries the 5-byte suffix (active flag + 32-bit counter/height);
+// in GC mode only active values are returned. updateRefCount's own Put call sites below are
+// proved to re-establish it.
+//@ func getFromStore
+//@ assumed
+//@ pure
+//@ ensures result1 == nil ==> len(result0) >= 5 && fresh(result0)
+//@ ensures result1 != nil ==> result0 == nil && len(result0) == 0
+//@ ensures result1 == nil && mode & ModeGCFlag != 0 ==> result0[len(result0)-5] == 1
+
+//@ func (*Trie).addRef
+//@ requires t != nil && t.refcount != nil && forallkeys(t.refcount, k, has(t.refcount, k) ==> t.refcount[k] != nil)
+//@ requires has(t.refcount, h) ==> t.refcount[h].refcount < 2147483647
+//@ modifies t.refcount[h], t.refcount[h].refcount, t.refcount[h].bytes
+//@ ensures[present] old(has(t.refcount, h)) ==> t.refcount[h] == old(t.refcount[h]) && t.refcount[h].refcount == old(t.refcount[h].refcount) + 1
+//@ ensures[absent] !old(has(t.refcount, h)) ==> has(t.refcount, h) && t.refcount[h] != nil && t.refcount[h].refcount == 1 && t.refcount[h].initial == 0 && same(t.refcount[h].bytes, bs)
+
+//@ func (*Trie).removeRef
+//@ requires t != nil && t.refcount != nil && forallkeys(t.refcount, k, has(t.refcount, k) ==> t.refcount[k] != nil)
+//@ requires has(t.refcount, h) ==> t.refcount[h].refcount > -2147483648
+//@ modifies t.refcount[h], t.refcount[h].refcount, t.refcount[h].bytes
+//@ ensures[present] old(has(t.refcount, h)) ==> t.refcount[h] == old(t.refcount[h]) && t.refcount[h].refcount == old(t.refcount[h].refcount) - 1
+//@ ensures[absent] !old(has(t.refcount, h)) ==> has(t.refcount, h) && t.refcount[h] != nil && t.refcount[h].refcount == -1 && t.refcount[h].initial == 0
+
+//@ func (*Trie).updateRefCount
+//@ allow-explicit-panic
+//@ requires t != nil && t.Store != nil && has(t.refcount, h) && t.refcount[h] != nil
+//@ requires -1073741824 < t.refcount[h].refcount && t.refcount[h].refcount < 1073741824 && 0 <= t.refcount[h].initial && t.refcount[h].initial < 1073741824
+//@ call MemCachedStore).Delete requires cnt == 0 && t.mode & ModeGCFlag == 0
+//@ call MemCachedStore).Put requires len(arg2) >= 5 && cnt >= 0 && (cnt == 0 ==> t.mode & ModeGCFlag != 0 && arg2[len(arg2)-5] == 0 && le32s(arg2, len(arg2)-4) == index) && (cnt > 0 ==> le32s(arg2, len(arg2)-4) == cnt)
+//@ ensures[nonneg] result >= 0
+//@ opt frame off
